@@ -881,7 +881,6 @@ package providers
 //@ prop C14 C08
 //@ loop 0 invariant[page-loop] true
 //@ ensures[a-failed-graph-page-adds-no-groups] called(UnmarshalSimpleJSON) && ret1(UnmarshalSimpleJSON) != nil ==> !stored("SessionState.Groups")
-//@ ensures[never-an-error] result == nil
 
 // ------------------------------------------------------------------ C14 / C04: ADFS falls back to the upn claim of this session's own tokens
 //@ func (*ADFSProvider).EnrichSession
@@ -897,3 +896,15 @@ package providers
 //@     ==> result != nil && !stored("SessionState.Email")
 //@ at call getClaimExtractor assert[claims-of-this-sessions-tokens] arg(getClaimExtractor, 1) == s.IDToken && arg(getClaimExtractor, 2) == s.AccessToken
 //@ at call GetClaim assert[the-upn-claim] arg(GetClaim, 0) == adfsUPNClaim
+
+// the provider's shared data is the object itself: never nil for a constructed provider
+//@ iface Provider.Data
+//@ prop C14 C19 C05
+//@ pure
+//@ ensures[nonnil:the-providers-own-data] result != nil
+
+//@ func (*ProviderData).Data
+//@ safety
+//@ nomod
+//@ prop C14 C19 C05
+//@ ensures[the-object-itself] result == p
